@@ -142,6 +142,23 @@ def gen_one(rng, i, tier):
     rng.shuffle(members)
     mode = rng.choice(["tiefree", "coded", "coded", "ties", "ties", "mixed", "generic"])
     vals = _scores_for(rng, mode, members, G)
+    sdt = None
+    if rng.random() < 0.14:
+        # integer / unsigned score arrays, given unsorted (np.diff of unsigned data wraps around; an int8 difference
+        # overflows): the order type of the data is kept (values -> ranks, scaled)
+        sdt = rng.choice(["u1", "u1", "u2", "i8", "i1"])
+        uniq = sorted(set(vals))
+        step_ = rng.choice([1, 2]) if len(uniq) <= 100 else 1
+        if len(uniq) * step_ <= 250:
+            off_ = rng.choice([0, 3]) if sdt != "i1" else -120
+            if sdt == "i1" and len(uniq) * step_ > 240:
+                sdt = "u1"; off_ = 0
+            rk = {v: float(off_ + step_ * k) for k, v in enumerate(uniq)}
+            vals = [rk[v] for v in vals]
+        else:
+            sdt = "i8"
+            rk = {v: float(k) for k, v in enumerate(uniq)}
+            vals = [rk[v] for v in vals]
     samples = [(c, names[gi], v) for (c, gi), v in zip(members, vals)]
     sc, ec = rng.choice(gen.CFGS)
     route = rng.choice(["ctor", "ctor", "ctor", "from_labels", "sorted"])
@@ -206,7 +223,7 @@ def gen_one(rng, i, tier):
     for _ in range(2):
         runs.append({"method": rng.choice(METHODS), "strat": rng.choice(STRATS), "smooth": False,
                      "script": {"real": rng.randrange(2**31)}})
-    return {"kind": kind, "samples": samples, "sc": sc, "ec": ec, "route": route, "group_names": group_names,
+    return {"sdt": sdt, "kind": kind, "samples": samples, "sc": sc, "ec": ec, "route": route, "group_names": group_names,
             "gn_kind": gn_kind, "pos_label": pos_label, "ts": ts, "unknown": unknown, "hist": hist,
             "runs": runs, "mode": mode}
 
@@ -228,6 +245,8 @@ def _tags(inp):
     pos, neg = _classes(inp)
     t = [f"cfg={inp['sc']},{inp['ec']}", "names=" + inp["kind"], "route=" + inp["route"], "gn=" + inp.get("gn_kind", "?"),
          "scores=" + inp.get("mode", "?"), f"G={len(set(p[1] for p in pos + neg))}"]
+    if inp.get("sdt"):
+        t.append("score-dtype=" + inp["sdt"])
     if min(len(pos), len(neg)) >= 100:
         t.append("size>=100")
     if not pos or not neg:
@@ -314,14 +333,19 @@ def build(inp) -> Case:
         neg_in = sorted(neg_in, key=lambda p: p[0])
     what0 = (f"GroupScores[{route}](pos={_short(pos_in)}, neg={_short(neg_in)}, {sc}/{ec}, group_names={gn})")
 
+    npdt = {"u1": np.uint8, "u2": np.uint16, "i8": np.int64, "i1": np.int8}.get(inp.get("sdt"), float)
+
     def construct():
         if route == "from_labels":
             pl = inp["pos_label"]
             other = 0 if pl == 1 else "N"
             labels = [pl if s[0] == "pos" else other for s in inp["samples"]]
-            return GroupScores.from_labels(labels, [s[2] for s in inp["samples"]], [s[1] for s in inp["samples"]],
+            sco_ = [s[2] for s in inp["samples"]]
+            if npdt is not float:
+                sco_ = np.array(sco_, dtype=npdt)
+            return GroupScores.from_labels(labels, sco_, [s[1] for s in inp["samples"]],
                                            pos_label=pl, score_class=sc, equal_class=ec)
-        return GroupScores(np.array([p[0] for p in pos_in], dtype=float), np.array([p[0] for p in neg_in], dtype=float),
+        return GroupScores(np.array([p[0] for p in pos_in], dtype=npdt), np.array([p[0] for p in neg_in], dtype=npdt),
                            pos_groups=[p[1] for p in pos_in], neg_groups=[p[1] for p in neg_in],
                            score_class=sc, equal_class=ec, group_names=gn, is_sorted=(route == "sorted"))
 
